@@ -6,7 +6,49 @@ SPEC = {
     'lean_modules': ['N2k.Props.C08'], 'props_files': ['N2k/Props/C08.lean'],
     'translators': ['pgn_tables'],
     'case_start': ['new'],
-    'trusted_base': [],
-    'assumptions': [],
+    'trusted_base': [
+        "model N2k/Model/IsoRequest.lean transcribes by hand ParseN2kPGN59904, FindSourceDeviceIndex, HandleISORequest, "
+        "RespondISORequest (AS FIXED in the worktree), SetN2kPGN59392, SendTx/RxPGNList, SetN2kPGN126996 (RAM and PROGMEM builder), "
+        "SetN2kPGN126998, SendProduct/ConfigurationInformation with their pending timers, SendPendingInformation and the 59904 "
+        "case of HandleReceivedSystemMessage/ParseMessages; every message goes through the already modelled SendMsg "
+        "(N2k/Model/Send.lean: claim-window gate, sequence counters, queue, scripted driver); tied to the compiled code only by "
+        "the differential run (emitted frames compared per op, both timer builds)",
+        "the broadcast-ignore list and the default transmit/receive PGN lists are REGENERATED from src/NMEA2000.cpp on every run "
+        "(tools/translators/pgn_tables.py); the library's default product/configuration strings are constants of the engine",
+        "the application handler is a parameter (what it accepts, what it hands to SendMsg for the device it was called for); "
+        "HasPendingInformation is represented by the timers themselves (a disabled timer is never due)",
+        "harness oracle: independent decoder of the produced frames (identifier fields, reference fast-packet reassembly, "
+        "field decoders) against expectations written from the property statement and from what the harness configured; "
+        "frames are observed at the driver AND in the send queue, so an answer counts even while the driver refuses",
+    ],
+    'assumptions': [
+        "node is open and in a claimant mode for the theorems (other modes: correspondence only); devices have claimed real addresses",
+        "AddVarStr is modelled for 7-bit configuration strings (N2kRequireUnicode false); the UCS-2 path is C16's",
+        "product strings contain no 0xFF byte for the decode theorems (0xFF is the padding); NAME < 2^64, declared PGNs < 2^24",
+        "field limit of a PROGMEM configuration string is Max_N2kConfigurationInfoField_len = 71 bytes (RAM copies hold 70)",
+        "no heartbeat, ISO-TP transfer or delayed address claim is due during the modelled polls (heartbeat switched off in the harness)",
+        "'always answered' is modulo a refusing driver: a NAK, claim or PGN list that SendMsg cannot place is not retried (C11)",
+    ],
 }
-MANIFEST = {'text': '', 'design_ref': 'DESIGN.md section 4, C08', 'note': ''}
+MANIFEST = {
+    'text': "Lean theorems over the message-level responder composed with the modelled SendMsg, for ALL 2^24 requested PGNs "
+            "(symbolic), any requester, any handler: a request addressed to a device that is not claiming hands to SendMsg exactly "
+            "the claim / transmit list then receive list to the requester / product information / configuration information for "
+            "the four mandatory PGNs, otherwise exactly the handler's messages and, unless it accepts, exactly one NAK (PGN 59392, "
+            "control 1, group function 0xFF, the request's three PGN bytes in bytes 5..7, destination = requester; on the bus the "
+            "frame carries the DEVICE's address as source - composition with C01); a broadcast request is answered by every "
+            "device independently, in order, with the same positive answers and never a NAK (the ten broadcast-ignore PGNs are not "
+            "offered to the handler); a claiming device produces nothing and touches neither queue nor driver; payloads of 60928 / "
+            "126464 / 126996 (both builders) / 126998 decode to the configured NAME, default++declared lists cut to 74, product "
+            "fields cut to 32 and padded, configuration strings cut to the field limit; refused product/configuration sends arm "
+            "187+8*src / 187+10*src ms timers (both timer flavours, wrap-around included) and a due timer re-sends on the next "
+            "poll; a refused NAK is not retried. Correspondence: the real node behind the mock driver vs the model on generated "
+            "requests (special PGNs +-1, ignore list, random and - thorough - all 2^24 PGNs against an independent decoder "
+            "oracle plus 2^18 stratified through the model), 1..9 devices, handlers, strings beyond the limits, claim windows, "
+            "driver refusals with retry.",
+    'design_ref': 'DESIGN.md section 4, C08',
+    'note': "One defect of the pinned tree is fixed in the worktree (126998 requested with nothing configured was NAKed to "
+            "address 255, also for broadcast requests); the model follows the fixed code. Trusted: Lean kernel; hand "
+            "transcription validated by differential runs only; AddVarStr for 7-bit strings only; the 'sends not refused' part of "
+            "'always answered' is C11's.",
+}
